@@ -177,3 +177,47 @@ def near_cases(run, lmax=4):
             k += 1
     return out
 
+
+# ---- representation of array arguments: the same values as another kind of ndarray must give the same result ----------------
+def repr_variants(a):
+    """ndarray representations of the same values: Fortran order, a strided view, a read-only array, int64 (if integer-valued),
+    float32 (if exactly representable)"""
+    a = np.asarray(a, dtype=float)
+    out = [("fortran-order", np.asfortranarray(a))]
+    big = np.zeros(tuple(2 * x for x in a.shape))
+    v = big[tuple(slice(None, None, 2) for _ in a.shape)]
+    v[...] = a
+    out.append(("strided-view", v))
+    r = a.copy()
+    r.setflags(write=False)
+    out.append(("read-only", r))
+    if np.all(a == np.round(a)) and np.all(np.abs(a) < 2 ** 50):
+        out.append(("int64", a.astype(np.int64)))
+    if np.all(a.astype(np.float32).astype(float) == a):
+        out.append(("float32", a.astype(np.float32)))
+    return out
+
+
+def repr_case(run, fname, argname, f, a, rep=None):
+    """f(a) for every representation of `a`: either a clean TypeError (a documented dtype requirement) or the float64 result"""
+    base = np.asarray(f(np.asarray(a, dtype=float)))
+    ok = True
+    for lab, v in repr_variants(a):
+        run.case(("repr", fname, argname, lab))
+        try:
+            r = np.asarray(f(v))
+        except TypeError:
+            run.count(f"representation {lab}: rejected with TypeError")
+            continue
+        run.count(f"representation {lab}: accepted")
+        fin = np.isfinite(base)
+        if r.shape != base.shape or r.dtype != base.dtype or not np.array_equal(np.isfinite(r), fin) or \
+                (fin.any() and np.abs(r[fin] - base[fin]).max() > 1e-13 * max(1.0, float(np.abs(base[fin]).max()))):
+            run.violation(f"{fname}: passing `{argname}` as a {lab} array with the same values changes the result "
+                          f"(dtype {r.dtype} vs {base.dtype}, max deviation "
+                          f"{(np.abs(np.asarray(r, dtype=float)[fin] - base[fin]).max() if r.shape == base.shape and fin.any() else float('nan')):.3e})",
+                          dict(rep or {}, case="representation", function=fname, argument=argname, variant=lab,
+                               signature={"kind": "representation"}))
+            ok = False
+    return ok
+
